@@ -22,6 +22,7 @@ The translation is a finite set of context-free templates (`quote!` bodies of th
    are total order-preserving folds; Fresh::solve / Closure::solve run the body on the incoming
    state.
  (round 4) builders.check_all with neutral-element check; macro front end only appends.
+ (round 5, shared with C02) `!=`: normalisation and subsumes direction.
 """
 import macrolib
 import streams
@@ -413,6 +414,8 @@ def check_library(ctx, lib):
 
     traversal.run_table(ctx, lib, "C14.K5.walk-star-is-deep", only=["walk_star"])
     C02.check_run(ctx, lib, "C14.K3K6.diseq-recheck")
+    C02.check_normalize(ctx, lib, "C14.K6.diseq-normalize")
+    C02.check_subsumes(ctx, lib, "C14.K3.diseq-subsumes")
     # the conjunction node constructors keep both goals (a constant-folding slip drops conjuncts)
     streams.check_conj_new(ctx, lib, "C14.K6.conj-new", "crate::operator::conj::Conj::new", "Goal", "Conj")
     streams.check_conj_new(ctx, lib, "C14.K6.conj-new", "crate::operator::conj::InferredConj::new", "G", "InferredConj")
